@@ -196,6 +196,30 @@ pub fn text_names_only(text: &str, var: usize, must_name: bool) -> Result<(), St
     }
 }
 
+/// A `fmt::Write` that accepts `left` more bytes and then fails.
+pub struct BoundedSink {
+    pub buf: String,
+    pub left: usize,
+}
+
+impl std::fmt::Write for BoundedSink {
+    fn write_str(&mut self, s: &str) -> std::fmt::Result {
+        if s.len() > self.left {
+            // take what fits, on a character boundary
+            let mut n = self.left;
+            while n > 0 && !s.is_char_boundary(n) {
+                n -= 1;
+            }
+            self.buf.push_str(&s[..n]);
+            self.left = 0;
+            return Err(std::fmt::Error);
+        }
+        self.left -= s.len();
+        self.buf.push_str(s);
+        Ok(())
+    }
+}
+
 pub fn show_val(v: &Option<Val>) -> String {
     match v {
         None => "unset".into(),
@@ -313,6 +337,24 @@ pub fn run_steps(
                 let at = || format!("{label}, observation <{}> after {k} of {} steps", o.name(), steps.len());
                 match o {
                     Obs::Print => {
+                        // Every third print is preceded by one into a sink that
+                        // fails after a few bytes (a closed pipe, a full buffer):
+                        // what did get through is a prefix of the right text, and
+                        // the failure leaves nothing behind for the next print.
+                        if k % 3 == 0 {
+                            use std::fmt::Write as _;
+                            let mut sink = BoundedSink { buf: String::new(), left: (k * 7 + steps.len()) % 97 };
+                            let res = write!(sink, "{}", sum);
+                            ev.eval();
+                            ev.count("obs/print_into_failing_sink");
+                            let want = cur.print();
+                            if !want.starts_with(&sink.buf) {
+                                return Err(format!("{}: what a failing sink received is not a prefix of the entry's text: {:?}", at(), sink.buf).into());
+                            }
+                            if res.is_ok() && sink.buf != want {
+                                return Err(format!("{}: printing into a sink reported success but delivered {:?}", at(), sink.buf).into());
+                            }
+                        }
                         let t = sum.to_string();
                         ev.eval();
                         let want = cur.print();
